@@ -290,7 +290,7 @@ def h_equal(nr, nc, route, accs=ACCESSORS):
     _exports_agree(A, Bt, sig, with_hdf5=(len(accs) == len(ACCESSORS) or route == 'explicit-zero'))
 
 
-DIFFS = ['value', 'value-to-zero', 'zero-to-value', 'obs-id', 'samp-id', 'obs-order', 'samp-order', 'md-entry', 'md-missing', 'type']
+DIFFS = ['value', 'two-values', 'value-to-zero', 'zero-to-value', 'obs-id', 'samp-id', 'obs-order', 'samp-order', 'md-entry', 'md-missing', 'type']
 
 
 def h_unequal(nr, nc, diff):
@@ -306,6 +306,16 @@ def h_unequal(nr, nc, diff):
         w = var('w_other', nonzero=True)
         assume(not_(eq(w, D[i][j])) if B().mode == 'sym' else w != D[i][j])
         D[i][j] = w
+    elif diff == 'two-values':
+        # two cells change by independent symbolic amounts: any aggregate comparison (sum of differences, totals, ...) is
+        # fooled by the pair the solver finds (C16-w7m1: `(A - B).sum() != 0`)
+        if len(nz) < 2:
+            raise Abort()
+        c = choice(len(nz), 'cell')
+        (i, j), (i2, j2) = nz[c], nz[(c + 1) % len(nz)]
+        w, w2 = var('w_other', nonzero=True), var('w_other2', nonzero=True)
+        assume(not_(eq(w, D[i][j])) if B().mode == 'sym' else w != D[i][j])
+        D[i][j], D[i2][j2] = w, w2
     elif diff == 'value-to-zero':
         if not nz:
             raise Abort()
@@ -373,7 +383,7 @@ META = {
     'explanation': "C16: pairs of tables sharing the SAME symbolic dense matrix but built through different routes (sparse layouts, index orders, "
                    "explicit zeros, dense / triple / COO constructor input, sort+inverse, filter-keeping-all, a larger table filtered down, renaming by a permutation of the names, copy) with read-only calls interleaved "
                    "must compare equal (both directions, !=, reflexive, copy, transitive through the copy), answer per-ID / per-cell queries with "
-                   "the same terms and export the same TSV / JSON documents (symbolic documents compared chunk by chunk, holes by the solver; HDF5 stores in the thorough tier); pairs assumed to differ in exactly one value / ID / order / metadata entry / type must compare unequal.",
+                   "the same terms and export the same TSV / JSON documents (symbolic documents compared chunk by chunk, holes by the solver; HDF5 stores in the thorough tier); pairs assumed to differ in one value, in two values at once (symbolic amounts, so cancelling pairs are included) / ID / order / metadata entry / type must compare unequal.",
     'encoded': {'biom/table.py': ['__eq__', '__ne__', 'descriptive_equality', '_data_equality', 'nnz', 'data', 'get_value_by_ids', 'copy',
                                   '__init__', '_to_sparse', 'nparray_to_sparse', 'list_list_to_sparse', 'sort_order', 'filter',
                                   'get_table_density', 'iter', 'sum']},
